@@ -698,11 +698,20 @@ func rateTrial(r *vh.Run, i int) {
 	wit := map[string]any{"trial": i, "limit": L, "warnings": warns}
 	warnBad := ""
 	useXFF := rng.Intn(2) == 0
+	// the header is a comma-separated list; how the proxies in between space it does not change the client address
+	spell := rng.Intn(3) == 0
+	wit["x_forwarded_for"], wit["list_spellings_vary"] = useXFF, useXFF && spell
+	nsent := 0
 	send := func(addr string) (int, http.Header) {
 		rq := vh.Req{Method: "GET", URL: "/v2/", RemoteAddr: addr + ":4444"}
 		if useXFF {
 			rq.RemoteAddr = "10.9.9.9:1"
-			rq.H = map[string]string{"X-Forwarded-For": addr + ", 10.1.1.1"}
+			v := addr + ", 10.1.1.1"
+			if spell {
+				v = []string{addr + ", 10.1.1.1", addr + ",10.1.1.1", addr, addr + " , 10.1.1.1"}[nsent%4]
+			}
+			nsent++
+			rq.H = map[string]string{"X-Forwarded-For": v}
 		}
 		rs := vh.Do(srv, rq)
 		// every setting combines with every other: the configured warnings are on every answer, served or refused
